@@ -246,6 +246,7 @@ const preamble2 = `(declare-fun unbox (Int) Int)
 (declare-fun unboxB (Int) Bool)
 (declare-fun boxptr (Int Int) Int)
 (declare-fun strid (Str) Int)
+(declare-fun strof (Int) Str)
 (declare-fun objbase (Int) Int)
 (declare-fun objsize (Int) Int)
 `
